@@ -103,7 +103,9 @@ fn vp_native_decoding_and_damage() {
     }
     // the coding list spread over several field lines (same list, RFC 9110 5.3), the coding not on the first one
     let p2: Vec<u8> = (0..5000u32).map(|i| (i * 13 % 256) as u8).collect();
-    for (hdr, enc) in [("Content-Encoding: identity\r\nContent-Encoding: gzip\r\n", gz(&p2, 6)), ("Content-Encoding: identity\r\nX-Between: 1\r\ncontent-encoding: x-foo, GZip\r\n", gz(&p2, 6)),
+    for (hdr, enc) in [("Content-Encoding:\tgzip\r\n", gz(&p2, 6)), ("Content-Encoding: DEFLATE\t\r\n", deflate(&p2, 6)), ("Content-Encoding: \t gzip \t \r\n", gz(&p2, 6)),
+                       ("Content-Encoding:gzip\r\n", gz(&p2, 6)), ("Content-Encoding: identity ,\tgzip\r\n", gz(&p2, 6)),
+                       ("Content-Encoding: identity\r\nContent-Encoding: gzip\r\n", gz(&p2, 6)), ("Content-Encoding: identity\r\nX-Between: 1\r\ncontent-encoding: x-foo, GZip\r\n", gz(&p2, 6)),
                        ("Content-Encoding: identity\r\nContent-Encoding: DeFlate\r\n", deflate(&p2, 6)), ("Content-Encoding: a\r\nContent-Encoding: b\r\nContent-Encoding: deflate\r\n", deflate(&p2, 6)),
                        ("Content-Encoding: identity\r\nContent-Encoding: x-other\r\n", p2.clone())] {
         for chunked in [false, true] { for size in [7usize, 100000] {
